@@ -289,4 +289,16 @@ example : res (96 : ℚ) ⟨3, .pt⟩ = some 4 ∧ res (96 : ℚ) ⟨4, .px⟩ =
 example : Len.div (K := ℚ) ⟨1, .inch⟩ ⟨254, .mm⟩ = .ok (10000000 / (254 * 393701)) := by
   simp [Len.div, pdiv, nat, inPerMm]; norm_num
 
+/-- **Zero is zero in every unit.** A length of amount 0 equals the number 0 whatever its unit — also
+    for units that cannot be converted to pixels without a context (mm, in, %, em, vw …). -/
+theorem C12_zero_equals_number_zero (eps : K) (he : 0 ≤ eps) (u : LUnit) :
+    Len.eqNum eps ⟨0, u⟩ 0 = true := by
+  unfold Len.eqNum Len.inPixels
+  cases u <;> simp [kabs, nat, he]
+
+/-- a pixel-family length equals a number exactly when its pixel value is within `eps` of it -/
+theorem C12_eq_number_pixels (eps a x : K) :
+    Len.eqNum eps ⟨a, .pt⟩ x = decide (kabs (a * nat 4 / nat 3 - x) ≤ eps) := by
+  simp [Len.eqNum, Len.inPixels]
+
 end Svg.C12
